@@ -124,6 +124,13 @@ def _ds(d):
 
 
 def canon_real(res):
+    try:
+        return _canon_real(res)
+    except Exception as e:
+        return {"error": "Malformed:" + type(e).__name__}
+
+
+def _canon_real(res):
     if "error" in res:
         return {"error": res["error"]}
     pre = res["pre"]
@@ -327,6 +334,13 @@ def well_formed(case):
 
 def oracle(case, res):
     """First failure (kind, detail) of the property on the real result, or None. Only for well-formed DAGs."""
+    try:
+        return _oracle(case, res)
+    except Exception as e:  # the result is not even of the expected shape (foreign keys, missing entries, ...)
+        return ("malformed-result", f"result cannot be inspected: {type(e).__name__}: {e}")
+
+
+def _oracle(case, res):
     import networkx as nx
     if "error" in res:
         return ("no-result", f"precompute raised/hung: {res['error']}")
@@ -574,6 +588,8 @@ def correspond(ctx):
     # a sample through the real thread pool: must give the same canonical result as the inline run
     for case, _ in cases[:: max(1, len(cases) // 25)]:
         a = run_real(case)
+        if "error" in a:
+            continue    # (the pool cannot be interrupted: only inputs on which the inline run returned)
         b = run_real(case, real_pool=True)
         if canon_real(a) != canon_real(b):
             ctx.disagree("thread-pool", {"job": case}, "same result as inline map", first_diff(canon_real(a), canon_real(b)))
